@@ -487,6 +487,7 @@ def jobs_C10():
         for F in ('Fq', 'Fr', 'Fp'):
             jobs += [(f'{b} {F} operator forms', check_field_ops, (b, F)), (f'{b} {F} sums/products/methods', check_field_iter_and_methods, (b, F))]
     jobs.append(('Fq::power', check_power, ()))
+    for F in ('Fq', 'Fr', 'Fp'): jobs.append((f'min {F} limb-level wrapper functions', check_w_u32, (F,)))
     return jobs
 
 def jobs_C11():
@@ -494,8 +495,185 @@ def jobs_C11():
     for b in ('ark', 'min'):
         for F in ('Fq', 'Fr', 'Fp'): jobs.append((f'{b} {F} reduction of byte strings', check_mod_order, (b, F)))
     for F in ('Fq', 'Fr', 'Fp'): jobs.append((f'ark {F} integers/limbs/bytes/flags', check_w_ark, (F,)))
+    for F in ('Fq', 'Fr', 'Fp'): jobs.append((f'min {F} limb/byte packing of the 32-bit wrapper', check_w_u32, (F,)))
+    for b in ('ark', 'min'):
+        for F in ('Fq', 'Fr', 'Fp'): jobs.append((f'{b} {F} checked parsing', check_bytes_checked, (b, F)))
     return jobs
 
 def jobs_shared():
     """field-level jobs that C12 (backend equivalence) re-uses"""
     return jobs_C10() + jobs_C11()
+
+# ---------------------------------------------------------------------------------------------- checked parsing (both builds)
+def _seq_cmp(I, a, b, op):
+    """lexicographic comparison of two finite sequences of bytes / integers -> z3 Bool (or python bool)"""
+    xs = [D(I, v) for v in models.as_items(I, a)]; ys = [D(I, v) for v in models.as_items(I, b)]
+    def bvv(v, w): return z3.BitVecVal(v, w) if isinstance(v, int) else v
+    def width(v): return v.size() if z3.is_bv(v) else None
+    lt = z3.BoolVal(len(xs) < len(ys)); eq = z3.BoolVal(len(xs) == len(ys))
+    n = min(len(xs), len(ys))
+    for i in reversed(range(n)):
+        w = width(xs[i]) or width(ys[i]) or 64
+        X, Y = bvv(xs[i], w), bvv(ys[i], w)
+        lt = z3.Or(z3.ULT(X, Y), z3.And(X == Y, lt)); eq = z3.And(X == Y, eq)
+    r = {'lt': lt, 'le': z3.Or(lt, eq), 'gt': z3.Not(z3.Or(lt, eq)), 'ge': z3.Not(lt), 'eq': eq, 'ne': z3.Not(eq)}[op]
+    r = z3.simplify(r)
+    if z3.is_true(r): return True
+    if z3.is_false(r): return False
+    return I.ctx.decide(r)
+
+def seq_cmp_models():
+    def mk(op): return lambda I, fr, fn, a: _seq_cmp(I, a[0], a[1], op)
+    return [(rf'^<.* as core::iter::Iterator>::{op}::<.*>$', mk(op)) for op in ('lt', 'le', 'gt', 'ge', 'eq', 'ne')] + \
+           [(r'^core::slice::<impl \[.*\]>::chunks_exact_mut$', models.m_slice_chunks)]
+
+def check_bytes_checked(build, F):
+    """from_bytes_checked accepts exactly the byte strings that denote an integer below p and returns that integer"""
+    items = _items(build); obs = []; f = FN[F]; nb = NB[F]; p = FIELDS[F]
+    it = find_item(items, rf'^fields::{f}::<impl at [^>]*>::from_bytes_checked$')
+    bs = [z3.BitVec(f'b{i}', 8) for i in range(nb)]
+    val = z3.Concat(*reversed(bs)); P = z3.BitVecVal(p, 8 * nb)
+    Rv = z3.BitVec('reduced', 8 * nb)
+    Wr = rf'fields::{f}::u(32|64)::wrapper::{F}'
+    def m_raw(I, fr, fn, a):
+        b = I.deref(a[0])
+        I.ctx.__dict__.setdefault('raw_calls', []).append(list(b))
+        v = z3.Concat(*reversed([z3.BitVecVal(x, 8) if isinstance(x, int) else x for x in b]))
+        return IV(F, v)
+    def m_to_bytes(I, fr, fn, a):
+        v = D(I, a[0])
+        if not isinstance(v, IV): return NotImplemented
+        # canonical bytes of (v.bv mod p): a fresh vector constrained by the W contract
+        I.ctx.side.append(('reduce', v.bv))
+        return [z3.Extract(8 * i + 7, 8 * i, Rv) for i in range(nb)]
+    M = models.base_models(extra_fns=[(rf'^{Wr}::from_raw_bytes$', m_raw), (rf'^{Wr}::to_bytes_le$', m_to_bytes)] + seq_cmp_models())
+    def body(I, h):
+        h.locals['b'] = list(bs)
+        return I.call_item(it, [Ref(h, 'b', [])])
+    name = f'{build}:{F}::from_bytes_checked accepts exactly the canonical encodings'
+    for r in _run(items, M, body, name, obs):
+        pn = name + ' path ' + ''.join('1' if d else '0' for d in r['decisions'])
+        if 'panic' in r: obs.append(Ob(pn, 'violated', 'panics: ' + r['panic'], 0, 'mirsym/BV', None, {'kind': 'checked', 'field': F, 'build': build})); continue
+        res = r['result']
+        hyp = list(r['path'])
+        for sd in r['side']:
+            if sd[0] == 'reduce': hyp += [z3.ULT(Rv, P), z3.URem(sd[1], P) == Rv]
+        if res.variant == 'Ok':
+            v = res.fields[0]
+            claim = z3.And(z3.ULT(val, P), v.bv == val) if isinstance(v, IV) else z3.BoolVal(False)
+        else: claim = z3.UGE(val, P)
+        t0 = time.time(); ans, model = _bv_valid(hyp, claim, 120000); dt = time.time() - t0
+        if ans == 'unsat': obs.append(Ob(pn, 'proved', f'{res.variant}', dt, 'mirsym path + z3 QF_BV', {'path': [str(c)[:100] for c in r['path']]}))
+        elif ans == 'sat':
+            bval = None
+            try: bval = sum(int(model.get(f'b{i}', '0')) << (8 * i) for i in range(nb))
+            except Exception: pass
+            obs.append(Ob(pn, 'violated', f'{res.variant} for bytes denoting {bval}', dt, 'mirsym path + z3 QF_BV', None, {'kind': 'checked', 'field': F, 'build': build, 'value': bval}))
+        else: obs.append(Ob(pn, 'inconclusive', 'z3 unknown', dt, 'z3'))
+    return obs
+
+# ---------------------------------------------------------------------------------------------- W layer, minimal build: limb packing around the fiat kernels
+class KLimbs(list):
+    """limb array produced by a kernel stub; .val = integer (bit-vector) it denotes under the kernel's contract"""
+    def __deepcopy__(s, memo): return s
+
+def check_w_u32(F):
+    """minimal build, 32-bit wrappers: the limb/byte packing code hands exactly the right digits to the fiat kernels and reads
+    exactly their outputs (kernels replaced by contract stubs that record their arguments); select / ct_eq on all limb values"""
+    items = _items('min'); obs = []; f = FN[F]; n64 = LIMBS64[F]; n32 = 2 * n64; nb = NB[F]; p = FIELDS[F]
+    W = rf'^fields::{f}::u32::wrapper::<impl at [^>]*>::'
+    MT = f'fields::{f}::u32::fiat::{F}MontgomeryDomainFieldElement'
+    rec = {}
+    def dig32(v, n): return [z3.simplify(z3.Extract(32 * i + 31, 32 * i, v)) for i in range(n)]
+    def to_bv(xs, w):
+        return z3.simplify(z3.Concat(*reversed([z3.BitVecVal(x, w) if isinstance(x, int) else x for x in xs])))
+    def k_to_montgomery(I, fr, fn, a):
+        arg = I.deref(a[1]); digs = arg.fields[0] if isinstance(arg, Agg) else arg
+        rec['to_mont_arg'] = list(digs)
+        out = KLimbs([z3.BitVec(f'm{i}', 32) for i in range(n32)]); out.val = to_bv(digs, 32); out.kind = 'mont'
+        o = I.deref(a[0]); o.fields[0] = out; return models.UNIT
+    def k_from_montgomery(I, fr, fn, a):
+        arg = I.deref(a[1]); ml = arg.fields[0] if isinstance(arg, Agg) else arg
+        rec['from_mont_arg'] = ml
+        xv = z3.BitVec('xv', 32 * n32)      # the canonical value of the element (K contract: digits of val, val < p)
+        o = I.deref(a[0]); o.fields[0] = dig32(xv, n32); return models.UNIT
+    def k_to_bytes(I, fr, fn, a):
+        digs = I.deref(a[1]); v = to_bv(digs, 32)
+        I.store(a[0], [z3.simplify(z3.Extract(8 * i + 7, 8 * i, v)) for i in range(nb)]); return models.UNIT
+    def k_from_bytes(I, fr, fn, a):
+        by = I.deref(a[1])
+        if isinstance(by, Ref): by = I.deref(by)
+        v = to_bv(by, 8)
+        I.store(a[0], dig32(v, n32)); return models.UNIT
+    def m_arr_cteq(I, fr, fn, a):
+        x, y = I.deref(a[0]), I.deref(a[1])
+        return Agg('subtle::Choice', [z3.simplify(z3.And([(z3.BitVecVal(p_, 32) if isinstance(p_, int) else p_) == (z3.BitVecVal(q_, 32) if isinstance(q_, int) else q_) for p_, q_ in zip(x, y)]))])
+    K = rf'^fields::{f}::u32::fiat::{f}_'
+    M = models.base_models(extra_fns=[(K + 'to_montgomery$', k_to_montgomery), (K + 'from_montgomery$', k_from_montgomery), (K + 'to_bytes$', k_to_bytes), (K + 'from_bytes$', k_from_bytes),
+                                      (r'^<\[u32(; \d+)?\] as subtle::ConstantTimeEq>::ct_eq$', m_arr_cteq)])
+    M['fns'] = [m for m in M['fns'] if not re.search(r'wrapper::F\[pqr\]::(from_montgomery_limbs|from_le_limbs|from_raw_bytes)', m[0])]
+    M['adts'] = []
+    def elem(tag):
+        l = [z3.BitVec(f'{tag}{i}', 32) for i in range(n32)]
+        return Agg(f'fields::{f}::u32::wrapper::{F}', [Agg(MT, [l])]), l
+    def limbs_of(v): return v.fields[0].fields[0]
+    def ob(name, good_claim, path=(), model_info=None):
+        t0 = time.time(); ans, model = _bv_valid(list(path), good_claim); dt = time.time() - t0
+        if ans == 'unsat': obs.append(Ob(f'min:{F} (u32 wrapper) {name}', 'proved', '', dt, 'mirsym + z3 QF_BV'))
+        elif ans == 'sat': obs.append(Ob(f'min:{F} (u32 wrapper) {name}', 'violated', f'counterexample {str(model)[:200]}', dt, 'mirsym + z3 QF_BV', None, dict({'kind': 'w-u32', 'field': F}, **(model_info or {}))))
+        else: obs.append(Ob(f'min:{F} (u32 wrapper) {name}', 'inconclusive', 'z3 unknown', dt, 'z3'))
+    def run1(name, pat, mkargs):
+        try: it = find_item(items, W + pat + '$')
+        except Unsupported as e: obs.append(Ob(f'min:{F} (u32 wrapper) {name}', 'inconclusive', str(e), 0, 'mirsym')); return []
+        rec.clear()
+        return [r for r in _run(items, M, lambda I, h: I.call_item(it, mkargs(I, h)), f'min:{F} (u32 wrapper) {name}', obs)]
+    u64s = [z3.BitVec(f'w{i}', 64) for i in range(n64)]; X64 = concat_le(u64s)
+    # from_le_limbs: digits handed to to_montgomery are the base-2^32 digits of the integer
+    for r in run1('from_le_limbs', 'from_le_limbs', lambda I, h: [list(u64s)]):
+        if 'panic' in r: ob('from_le_limbs', z3.BoolVal(False)); continue
+        arg = rec.get('to_mont_arg')
+        ob('from_le_limbs passes the base-2^32 digits of the integer to to_montgomery and returns its output', (to_bv(arg, 32) == X64) if arg and len(arg) == n32 else z3.BoolVal(False), r['path'], {'fn': 'from_le_limbs'})
+        rl = limbs_of(r['result'])
+        good = len(rl) == n32 and all(z3.is_bv(x) and str(x) == f'm{i}' for i, x in enumerate(rl))
+        if not good: ob('from_le_limbs returns the kernel output', z3.BoolVal(False))
+    # from_montgomery_limbs (const fn) and _backend: limbs are split into low/high 32-bit halves in order
+    for r in run1('from_montgomery_limbs', 'from_montgomery_limbs', lambda I, h: [list(u64s)]):
+        if 'panic' in r: ob('from_montgomery_limbs', z3.BoolVal(False)); continue
+        l = limbs_of(r['result'])
+        ob('from_montgomery_limbs splits each 64-bit limb into (low, high) 32-bit limbs in order', (to_bv(l, 32) == X64) if len(l) == n32 else z3.BoolVal(False), r['path'], {'fn': 'from_montgomery_limbs'})
+    # to_le_limbs / to_bytes_le: digits read back from from_montgomery
+    a_el, a_l = elem('a')
+    for r in run1('to_le_limbs', 'to_le_limbs', lambda I, h: [Ref(h, 'a', [])] if h.locals.__setitem__('a', a_el) is None else None):
+        if 'panic' in r: ob('to_le_limbs', z3.BoolVal(False)); continue
+        same_arg = rec.get('from_mont_arg') is not None and all(x.eq(y) for x, y in zip(rec['from_mont_arg'], a_l))
+        ob('to_le_limbs converts the element itself and returns the 64-bit digits of its value', (concat_le(r['result']) == z3.BitVec('xv', 32 * n32)) if same_arg else z3.BoolVal(False), r['path'], {'fn': 'to_le_limbs'})
+    for r in run1('to_bytes_le', 'to_bytes_le', lambda I, h: [Ref(h, 'a', [])] if h.locals.__setitem__('a', a_el) is None else None):
+        if 'panic' in r: ob('to_bytes_le', z3.BoolVal(False)); continue
+        same_arg = rec.get('from_mont_arg') is not None and all(x.eq(y) for x, y in zip(rec['from_mont_arg'], a_l))
+        out = r['result']
+        ob('to_bytes_le returns the little-endian bytes of the value', (to_bv(out, 8) == z3.BitVec('xv', 32 * n32)) if same_arg and len(out) == nb else z3.BoolVal(False), r['path'], {'fn': 'to_bytes_le'})
+    # from_raw_bytes
+    bs = [z3.BitVec(f'b{i}', 8) for i in range(nb)]
+    for r in run1('from_raw_bytes', 'from_raw_bytes', lambda I, h: [Ref(h, 'b', [])] if h.locals.__setitem__('b', list(bs)) is None else None):
+        if 'panic' in r: ob('from_raw_bytes', z3.BoolVal(False)); continue
+        arg = rec.get('to_mont_arg')
+        ob('from_raw_bytes passes the digits of the little-endian integer to to_montgomery', (to_bv(arg, 32) == to_bv(bs, 8)) if arg and len(arg) == n32 else z3.BoolVal(False), r['path'], {'fn': 'from_raw_bytes'})
+    # conditional_select / ct_eq (Fq only has them)
+    if F == 'Fq':
+        b_el, b_l = elem('c')
+        ch = z3.BitVec('choice', 8)
+        try:
+            it = mirsym.find_item_hdr(items, r'^fields::fq::u32::wrapper::.*::conditional_select$', 'ConditionallySelectable for')
+            for r in _run(items, M, lambda I, h: I.call_item(it, [Ref(h, 'a', []), Ref(h, 'b', []), Agg('subtle::Choice', [ch])]) if (h.locals.__setitem__('a', a_el), h.locals.__setitem__('b', b_el)) else None, 'min:Fq conditional_select', obs):
+                if 'panic' in r: ob('conditional_select', z3.BoolVal(False)); continue
+                l = limbs_of(r['result'])
+                claim = z3.And([z3.If(ch != 0, y, x) == o for x, y, o in zip(a_l, b_l, l)]) if len(l) == n32 else z3.BoolVal(False)
+                ob('conditional_select returns exactly the limbs of one operand (b when the choice is set)', z3.Implies(z3.ULE(ch, 1), claim), r['path'], {'fn': 'conditional_select'})
+            it = mirsym.find_item_hdr(items, r'^fields::fq::u32::wrapper::.*::ct_eq$', 'ConstantTimeEq for')
+            for r in _run(items, M, lambda I, h: I.call_item(it, [Ref(h, 'a', []), Ref(h, 'b', [])]) if (h.locals.__setitem__('a', a_el), h.locals.__setitem__('b', b_el)) else None, 'min:Fq ct_eq', obs):
+                if 'panic' in r: ob('ct_eq', z3.BoolVal(False)); continue
+                c = models.choice_bool(r['result'])
+                c = z3.BoolVal(c) if isinstance(c, bool) else c
+                ob('ct_eq is true exactly when all limbs agree', c == z3.And([x == y for x, y in zip(a_l, b_l)]), r['path'], {'fn': 'ct_eq'})
+        except Unsupported as e: obs.append(Ob('min:Fq select/ct_eq', 'inconclusive', str(e), 0, 'mirsym'))
+    return obs
